@@ -33,6 +33,7 @@ def chain_explorer(ctx: Ctx, **kw):
     lst = roles.listener_methods()
     refine = roles.reach(roles.refine_driver) if roles.refine_driver else set()
     twq = roles.fq(tw)
+    sdc = ctx.ix.cls('SearchData')
 
     def inl(f: FuncInfo, st) -> bool:
         q = roles.fq(f)
@@ -40,7 +41,11 @@ def chain_explorer(ctx: Ctx, **kw):
             return False
         if q in refine and q not in roles.global_reach:
             return False
-        return twq in roles.reach(f) or q == twq
+        if twq in roles.reach(f) or q == twq:
+            return True
+        # convenience wrappers of the container around its named operations (insert both end points and the first
+        # trial in one call ...): looked through, the named operations stay events
+        return f.cls is not None and f.cls.is_subclass_of(sdc) and roles.is_glue(f)
 
     def may_raise(ev: Event) -> bool:
         return any(isinstance(c, FuncInfo) and roles.fq(c) in pcs for c in ev.d['callees']) and \
